@@ -915,8 +915,117 @@ def rule_execute_coverage(chk, prog):
     (r.bad if bad else r.ok)("routes written back", fn.loc(we[0]) if we else fn.where(), bad or "")
 
 
+def rule_recommended_position(chk, prog):
+    r = chk.rule("JUNCTION-POSITION-WRITTEN", "the hyperedge code tells a junction where its connectors now meet through "
+                 "JunctionRef::setRecommendedPosition (the improver moves the meeting point of a junction's connectors whether or not the "
+                 "junction is position-fixed, and rewrites their routes to it): interpreted for a free and for a position-fixed junction, "
+                 "recommendedPosition() afterwards returns exactly the point that was set -- otherwise the routes end where the junction "
+                 "says it is not", floor=2)
+    fs, fg = prog.fn("Avoid::JunctionRef::setRecommendedPosition"), prog.fn("Avoid::JunctionRef::recommendedPosition")
+    for fixed in (False, True):
+        j = default_obj(prog, "Avoid::JunctionRef", {"m_position": P(prog, 3, 4), "m_recommended_position": P(prog, 3, 4), "m_position_fixed": fixed})
+        it = Interp(prog, Oracle([]))
+        r.count()
+        try:
+            it.call(fs, j, None, None, arg_values=[P(prog, 30, 40)])
+            got = it.call(fg, j, None, None, arg_values=[])
+        except (Unsupported, AssertFail) as e:
+            raise AnalysisBroken("JunctionRef::setRecommendedPosition outside the interpreter subset: %s" % e)
+        ok = isinstance(got, Obj) and (got.f["x"], got.f["y"]) == (Fraction(30), Fraction(40))
+        (r.ok if ok else r.bad)("%s junction" % ("position-fixed" if fixed else "free"), fs.where(), "" if ok else
+                                "after setRecommendedPosition((30,40)) the junction recommends (%s,%s)" % ((got.f["x"], got.f["y"]) if isinstance(got, Obj) else ("?", "?")))
+
+
+def rule_improver_lists_fresh(chk, prog):
+    r = chk.rule("IMPROVER-LISTS-FRESH", "Router::rerouteAndCallbackConnectors clears the hyperedge improver (its lists of new / deleted objects) on EVERY "
+                 "path, whatever the improvement options say: the lists handed out by newAndDeletedObjectListsFromHyperedgeImprovement() "
+                 "describe this transaction, not an earlier one whose objects have since been freed", floor=1)
+    fn = prog.fn("Avoid::Router::rerouteAndCallbackConnectors")
+    g = CFG(fn)
+    cl = [c for c in calls(fn) if c.get("cname") == "Avoid::HyperedgeImprover::clear"]
+    r.count()
+    w = g.exit_reachable_avoiding([c["id"] for c in cl]) if cl else []
+    (r.ok if w is None else r.bad)("improver cleared on every path", fn.loc(cl[0]) if cl else fn.where(), "" if w is None else
+                                   "a transaction can complete without clearing the improver's lists%s: with the improvement options off they keep "
+                                   "naming the junctions / connectors of the last improved transaction" % ((" (" + g.describe(w) + ")") if w else ""))
+
+
+def rule_registered_once(chk, prog):
+    """calcHyperedgeConnectors: every registered hyperedge is collected exactly once."""
+    from ..microai.interp import SetVal
+    r = chk.rule("REGISTERED-ONCE", "HyperedgeRerouter::calcHyperedgeConnectors (with both findAttachedObjects overloads) interpreted on a hyperedge with "
+                 "two junctions J1 - J2 and four terminals: registered once through J1; registered TWICE, through J1 and through J2; and two "
+                 "separate hyperedges registered side by side: every connector and every junction of a registered hyperedge appears in the "
+                 "deleted-object lists of exactly ONE registration index (what is listed twice is rerouted and freed twice), and the terminal "
+                 "vertices are recorded under that index", floor=3)
+    fn = prog.fn("Avoid::HyperedgeRerouter::calcHyperedgeConnectors")
+
+    def scene(tag):
+        J1 = default_obj(prog, "Avoid::JunctionRef", {"_name": tag + "J1"})
+        J2 = default_obj(prog, "Avoid::JunctionRef", {"_name": tag + "J2"})
+        conns = {}
+        for nm, (a, b) in {"a": (None, J1), "b": (None, J1), "c": (J1, J2), "d": (J2, None), "e": (J2, None)}.items():
+            c = default_obj(prog, "Avoid::ConnRef", {"_name": tag + nm})
+            c.f["_anchors"] = (a, b)
+            c.f["m_src_vert"] = default_obj(prog, "Avoid::VertInf", {"_name": tag + nm + ".src"})
+            c.f["m_dst_vert"] = default_obj(prog, "Avoid::VertInf", {"_name": tag + nm + ".dst"})
+            conns[nm] = c
+        J1.f["_conns"] = [conns[k] for k in "abc"]
+        J2.f["_conns"] = [conns[k] for k in "cde"]
+        return J1, J2, conns
+    cases = []
+    J1, J2, cs = scene("")
+    cases.append(("registered once through J1", [J1], [(J1, J2)], [cs]))
+    J1, J2, cs = scene("")
+    cases.append(("registered twice, through J1 and through J2", [J1, J2], [(J1, J2)], [cs]))
+    J1, J2, cs = scene("p.")
+    K1, K2, ds = scene("q.")
+    cases.append(("two separate hyperedges", [J1, K2], [(J1, J2), (K1, K2)], [cs, ds]))
+    for name, roots, hes, conn_sets in cases:
+        n = len(roots)
+        rr = default_obj(prog, "Avoid::HyperedgeRerouter", {"m_router": default_obj(prog, "Avoid::Router", {})})
+        rr.f["m_root_junction_vector"] = Vec(list(roots), "Avoid::JunctionRef *")
+        rr.f["m_terminals_vector"] = Vec([Vec([], "Avoid::ConnEnd") for _ in range(n)], "Avoid::ConnEndList")
+        for fld, t in (("m_deleted_junctions_vector", "std::list<Avoid::JunctionRef *>"), ("m_deleted_connectors_vector", "std::list<Avoid::ConnRef *>"),
+                       ("m_new_junctions_vector", "std::list<Avoid::JunctionRef *>"), ("m_new_connectors_vector", "std::list<Avoid::ConnRef *>")):
+            rr.f[fld] = Vec([], t)
+        rr.f["m_terminal_vertices_vector"] = Vec([], "std::set<Avoid::VertInf *>")
+        rr.f["m_added_vertices"] = Vec([], "Avoid::VertInf *")
+        it = Interp(prog, Oracle([]), max_steps=400000)
+        it.vhooks["Avoid::ConnRef::assignConnectionPinVisibility"] = lambda it_, recv, args: None
+        warned = []
+        it.hooks["Avoid::err_printf"] = lambda it_, n_, env_, warned=warned: warned.append(1)
+        it.vhooks["Avoid::Obstacle::attachedConnectors"] = lambda it_, recv, args: Vec(list(recv.f["_conns"]), "Avoid::ConnRef *")
+        it.vhooks["Avoid::ConnRef::endpointAnchors"] = lambda it_, recv, args: Obj("std::pair", {"first": recv.f["_anchors"][0], "second": recv.f["_anchors"][1]})
+        r.count()
+        try:
+            it.call(fn, rr, None, None, arg_values=[])
+        except Unsupported as e:
+            raise AnalysisBroken("calcHyperedgeConnectors outside the interpreter subset (%s): %s" % (name, e))
+        except AssertFail as e:
+            r.bad(name, fn.where(), "assertion fails: %s" % e)
+            continue
+        bad = "a well-formed hyperedge (a junction with three connectors) is reported invalid and ignored" if warned else None
+        dj, dc = rr.f["m_deleted_junctions_vector"].items, rr.f["m_deleted_connectors_vector"].items
+        for (A_, B_), cs_ in zip(hes, conn_sets):
+            for obj, lists, what in [(A_, dj, "junction"), (B_, dj, "junction")] + [(c_, dc, "connector") for c_ in cs_.values()]:
+                idx = [i_ for i_, l_ in enumerate(lists) for x in l_.items if x is obj]
+                if len(idx) != 1:
+                    bad = bad or "%s %s is listed for deletion %d times (registration indexes %s), expected exactly once" % (
+                        what, obj.f["_name"], len(idx), idx)
+            tv = rr.f["m_terminal_vertices_vector"].items
+            want_t = {cs_[k].f["m_src_vert"].f["_name"] for k in "ab"} | {cs_[k].f["m_dst_vert"].f["_name"] for k in "de"}
+            got_t = [{v.f["_name"] for v in (s_.items if hasattr(s_, "items") else [])} for s_ in tv]
+            if bad is None and sum(1 for g_ in got_t if g_ == want_t) != 1:
+                bad = "the terminal vertices of the hyperedge %s are recorded as %s" % (sorted(want_t), [sorted(g_) for g_ in got_t])
+        (r.bad if bad else r.ok)(name, fn.where(), bad or "")
+
+
 def run(chk):
     prog = chk.load()
+    chk.guard(rule_registered_once, chk, prog)
+    chk.guard(rule_improver_lists_fresh, chk, prog)
+    chk.guard(rule_recommended_position, chk, prog)
     chk.guard(rule_writeback, chk, prog, chk.tier)
     chk.guard(rule_dummy_flagged, chk, prog)
     chk.guard(rule_zero_length, chk, prog)
